@@ -97,3 +97,59 @@ def povm_defect(povm, d=None):
     herm_dev = max(float(np.abs(m - m.conj().T).max()) for m in ms)
     comp = float(np.abs(sum(ms) - np.eye(d)).max())
     return neg, comp, herm_dev
+
+
+def bell_222_max(j, a, b, av, bv, grid=90):
+    """Quantum maximum of a Bell functional with two dichotomic settings per party, by Jordan's lemma.
+
+    Two projective two-outcome measurements block-diagonalise into 1- and 2-dimensional blocks, so the maximum of
+    sum J_xy <A_x B_y> + sum a_x <A_x> + sum b_y <B_y> (outcome values av, bv) is attained on a pair of blocks:
+    deterministic x deterministic, deterministic x qubit, qubit x deterministic or qubit x qubit with real rank-one
+    projective measurements A_0 = Z-direction, A_1 at angle theta (same for Bob).  The 2-D angle search is a dense grid
+    followed by local refinement; the result is a rigorous lower bound and, up to the refinement accuracy, the optimum.
+    """
+    import itertools
+
+    from scipy.optimize import minimize
+
+    j = np.asarray(j, dtype=float)
+    a = np.asarray(a, dtype=float).reshape(-1)
+    b = np.asarray(b, dtype=float).reshape(-1)
+    z = np.array([[1.0, 0], [0, -1.0]])
+    x = np.array([[0, 1.0], [1.0, 0]])
+    eye = np.eye(2)
+
+    def obs(vals, th):
+        return (vals[0] + vals[1]) / 2 * eye + (vals[0] - vals[1]) / 2 * (np.cos(th) * z + np.sin(th) * x)
+
+    best = -np.inf
+    # deterministic x deterministic
+    for xs in itertools.product(av, repeat=2):
+        for ys in itertools.product(bv, repeat=2):
+            best = max(best, sum(j[p, q] * xs[p] * ys[q] for p in range(2) for q in range(2)) + a @ np.array(xs) + b @ np.array(ys))
+    # deterministic x qubit and qubit x deterministic
+    ths = np.linspace(0, 2 * np.pi, 4 * grid, endpoint=False)
+    for xs in itertools.product(av, repeat=2):
+        coef = [sum(j[p, q] * xs[p] for p in range(2)) + b[q] for q in range(2)]
+        for th in ths:
+            best = max(best, float(np.linalg.eigvalsh(coef[0] * obs(bv, 0) + coef[1] * obs(bv, th)).max()) + a @ np.array(xs))
+    for ys in itertools.product(bv, repeat=2):
+        coef = [sum(j[p, q] * ys[q] for q in range(2)) + a[p] for p in range(2)]
+        for th in ths:
+            best = max(best, float(np.linalg.eigvalsh(coef[0] * obs(av, 0) + coef[1] * obs(av, th)).max()) + b @ np.array(ys))
+
+    # qubit x qubit
+    def bell_op(th, ph):
+        aa = [obs(av, 0), obs(av, th)]
+        bb = [obs(bv, 0), obs(bv, ph)]
+        op = sum(j[p, q] * np.kron(aa[p], bb[q]) for p in range(2) for q in range(2))
+        return op + sum(a[p] * np.kron(aa[p], eye) for p in range(2)) + sum(b[q] * np.kron(eye, bb[q]) for q in range(2))
+
+    g = np.linspace(0, 2 * np.pi, grid, endpoint=False)
+    ops = np.array([[bell_op(t, p) for p in g] for t in g])
+    vals = np.linalg.eigvalsh(ops)[..., -1]
+    order = np.dstack(np.unravel_index(np.argsort(vals, axis=None)[::-1][:6], vals.shape))[0]
+    for it, ip in order:
+        res = minimize(lambda v: -np.linalg.eigvalsh(bell_op(v[0], v[1]))[-1], [g[it], g[ip]], method="Nelder-Mead", options={"xatol": 1e-9, "fatol": 1e-12})
+        best = max(best, -float(res.fun))
+    return float(max(best, vals.max()))
